@@ -19,6 +19,13 @@ PoolQuick == {
   Cn(D("A", "v0"), {"B"}, FALSE, FALSE),
   Syn }
 
+\* middle pool (thorough tier of the exhaustive check): every declaration, import sets of size <= 1 over
+\* two names plus the dangling one, no own errors, plus the quick pool
+PoolMid ==
+  PoolQuick \cup
+  { Cn(d, i, FALSE, FALSE) : d \in {NoDecl} \cup { D(n, v) : n \in {"A", "B"}, v \in {"v0", "v1"} },
+                              i \in { {}, {"A"}, {"B"}, {"D"} } }
+
 \* thorough pool: every declaration x every import set of size <= 2 that does not import its own class name
 Names == {"A", "B", "C"}
 PoolFull ==
